@@ -508,6 +508,12 @@ def kaczmarz(ops, x, rhs, niter, omega=1, projection=None, random=False,
 
     omega = normalized_scalar_param_list(omega, len(ops), param_conv=float)
 
+    # Normalize string
+    callback_loop, callback_loop_in = str(callback_loop).lower(), callback_loop
+    if callback_loop not in ('inner', 'outer'):
+        raise ValueError('`callback_loop` {!r} not understood'
+                         ''.format(callback_loop_in))
+
     # Reusable elements in the range, one per type of space
     ranges = [opi.range for opi in ops]
     unique_ranges = set(ranges)
